@@ -59,6 +59,16 @@ static void scenario() {
             for (int i = 0; i < 3; i++) { if (acc[i] && cnt[i] != 1) vf_fail("task_group::wait returned but accepted unit %d ran %d times (a run() whose functor copy threw came before)", i, cnt[i]); if (!acc[i] && cnt[i]) vf_fail("unit %d of a failed run() was executed", i); }
             { Fun f(3); g_fthrowat = 0; tg.run(f); tg.wait(); if (cnt[3] != 1) vf_fail("second wait returned but unit 3 ran %d times", cnt[3]); }
             if (threw != 1) vf_fail("%d run() calls threw, expected 1", threw); }); vf_window(0); }
+    else if (streq(k, "reuse_after_throw")) {   // a wait that left by an exception: the group was not cancelled by anybody afterwards, so work submitted to it later runs and the next wait covers it
+        int mode = (int)vf_param_int("mode", 0);   // 0: run_and_wait(f), f throws   1: run_and_wait(f), a task submitted by run() throws   2: wait(), a task throws   3: run_and_wait(task_handle), the handle's task throws
+        vf_window(1); ar.execute([&] { tbb::task_group tg; struct Oops {}; int caught = 0;
+            try { if (mode == 0) tg.run_and_wait([&] { throw Oops(); }); else if (mode == 1) { tg.run([&] { throw Oops(); }); tg.run_and_wait([&] { vf_point(); }); } else if (mode == 2) { tg.run([&] { throw Oops(); }); tg.wait(); } else { tbb::task_handle h = tg.defer([&] { throw Oops(); }); tg.run_and_wait(std::move(h)); } }
+            catch (Oops&) { caught = 1; }
+            if (!caught) vf_fail("the exception thrown inside the group did not reach the waiting call (mode %d)", mode);
+            for (int i = 0; i < 3; i++) tg.run([&, i] { unit(i); });
+            tbb::task_group_status st = tbb::not_complete; try { st = tg.wait(); } catch (Oops&) { vf_fail("the second wait rethrew the exception that the first wait had already delivered (mode %d)", mode); }
+            for (int i = 0; i < 3; i++) if (cnt[i] != 1) vf_fail("a task_group is used again after a wait that left by an exception (mode %d): unit %d submitted afterwards ran %d times although nobody cancelled the group (second wait returned status %d)", mode, i, cnt[i], (int)st);
+            covered(3, "task_group::wait after an earlier wait had thrown"); }); vf_window(0); }
     else if (streq(k, "abandon")) { // a worker leaves the arena (recalled for a higher-priority arena) with spawned tasks still in its pool: a later wait from another slot must find them
         int nchild = (int)vf_param_int("children", 3);
         tbb::task_arena A(2, 1, tbb::task_arena::priority::normal), B(2, 1, tbb::task_arena::priority::high); A.initialize(); B.initialize();
